@@ -84,7 +84,8 @@ Proof.
   rewrite Hd, Ht, Hs, Hv. reflexivity.
 Qed.
 
-(* reader and writer agree on the ten files of every location whose name does not end in .tsv written with capital
+(* mode false = the reader before fix commit b5f4533: reader and writer agree on the ten files of every location whose
+   name does not end in .tsv written with capital
    letters -- in particular of every FOLDER name, whatever dots it holds (HED8.3.0, a.b.c, a trailing dot) *)
 Lemma location_files_agree parent name :
   is_dot_tsv_ci name = is_dot_tsv_cs name -> reader_files false parent name = writer_files parent name.
@@ -97,11 +98,19 @@ Proof.
   destruct (is_dot_tsv_cs name) eqn:E; [|reflexivity]. rewrite (cs_implies_ci _ E) in H. discriminate.
 Qed.
 
-(* with the case-insensitive test of fix-F8 they agree on every location *)
+(* the current code (case-insensitive test since fix commit b5f4533): reader and writer agree on every location *)
 Lemma location_files_agree_fixed parent name : reader_files true parent name = writer_files parent name.
 Proof. reflexivity. Qed.
 
-(* finding C05-F8: the exact comparison and a suffix written .TSV *)
+(* record of the repaired finding C05-F8 (behaviour before fix commit b5f4533): the exact comparison and a suffix
+   written .TSV *)
 Lemma location_upper_suffix_disagrees :
   exists parent name, reader_files false parent name <> writer_files parent name.
 Proof. exists [], [120; 46; 84; 83; 86]%N. vm_compute. discriminate. Qed.
+
+(* current code: every folder name, whatever dots it holds, names <parent>/<name>/<name>_<Suffix>.tsv for both sides *)
+Lemma folder_files_current parent name :
+  is_dot_tsv_ci name = false ->
+  reader_files true parent name = map (tsv_file (parent ++ [name]) name) df_suffixes
+  /\ writer_files parent name = map (tsv_file (parent ++ [name]) name) df_suffixes.
+Proof. intro H. unfold reader_files, writer_files, location_files. rewrite H. split; reflexivity. Qed.
